@@ -25,6 +25,11 @@ def run(ctx):
         pairs.append((s.text(), s2.text()))
         meta.append(kinds)
         schemas.append((s, s2))
+    for i in range(60 if thorough else 16):
+        fs, fs2, res = linter.recursion_family(r)
+        pairs.append((fs.text(), fs2.text()))
+        meta.append(["!%s@%s" % res])
+        schemas.append((fs, fs2))
     verdicts = linter.run_linter(ctx, pairs)
     accepted = 0
     values = 0
